@@ -275,6 +275,23 @@ class _AsyncResp:
         return False
 
 
+def _in_loop():
+    try:
+        asyncio.get_running_loop()
+    except RuntimeError:
+        return False
+    return True
+
+
+def _run_nested(coro):
+    # post() is called from inside the client's coroutine: drive the (never really suspending) collector by hand
+    try:
+        while True:
+            coro.send(None)
+    except StopIteration:
+        return
+
+
 class FakeSession:
     """aiohttp.ClientSession stand-in: records post()."""
 
@@ -282,7 +299,25 @@ class FakeSession:
         self.requests = []
 
     def post(self, path, data=None, headers=None):
-        self.requests.append(('POST', path, data, dict(headers or {})))
+        # what aiohttp puts on the wire (documented behaviour): bytes are sent as one block with a Content-Length header that
+        # aiohttp ADDS when the caller gave none; an async iterable is sent with chunked transfer encoding, one chunk per piece
+        headers = dict(headers or {})
+        low = {k.lower() for k in headers}
+        if hasattr(data, '__aiter__'):
+            pieces = []
+
+            async def _collect():
+                async for piece in data:
+                    pieces.append(bytes(piece))
+            asyncio.run(_collect()) if not _in_loop() else _run_nested(_collect())
+            body = b''.join(b'%x\r\n' % len(x) + x + b'\r\n' for x in pieces if x) + b'0\r\n\r\n'
+            if 'transfer-encoding' not in low:
+                headers['Transfer-Encoding'] = 'chunked'
+        else:
+            body = data
+            if 'content-length' not in low:
+                headers['Content-Length'] = str(len(body))
+        self.requests.append(('POST', path, body, headers))
         return _AsyncResp()
 
 
@@ -360,7 +395,10 @@ def negotiate_client(use_async: bool, renc: int, sup: int, chunk: int) -> str:
                 orc.check(chosen == (first[0] if first else None), tag + ':not-first-acceptable-enabled-coding')
                 ae = headers.get('accept-encoding')
                 got = [] if ae is None else [x.strip() for x in ae.split(',')]
-                orc.check(got == enabled, tag + ':accept-encoding-differs-from-enabled')
+                if use_async:   # the async client reads the response through aiohttp, which decodes gzip / deflate only
+                    orc.check(got == [e for e in enabled if e.lower() in ('gzip', 'deflate')], tag + ':accept-encoding-offers-a-coding-it-cannot-decode')
+                else:
+                    orc.check(got == enabled, tag + ':accept-encoding-differs-from-enabled')
         except Exception as ex:  # noqa: BLE001
             return exc_result(orc, ex, tag)
         return orc.result()
@@ -507,4 +545,44 @@ def response_roundtrip(coding: int, sup: int, chunk: int, method: int) -> str:
             orc.check(kind == 'returned' and got == RESP, 'response:consumer-does-not-recover-payload')
         except Exception as ex:  # noqa: BLE001
             return exc_result(orc, ex, 'harness')
+        return orc.result()
+
+
+# ================================================================================================ concatenated / trailing data
+
+def codec_concatenation(codec: int, case: int, n1: int, n2: int) -> str:
+    """
+    decompress_payload of the registered codings (0 gzip, 1 x-lz4) on data that is MORE than one compressed unit:
+    case 0 two members / frames (valid: RFC 1952 2.2 allows several gzip members) -> the concatenation of both payloads;
+    1 one unit followed by garbage -> rejected; 2 one unit followed by a truncated second unit -> rejected;
+    3 one unit alone (control). Payload sizes by selector. A decoder that silently stops after the first unit misinterprets
+    the message instead of rejecting it.
+    pre: 0 <= codec < 2
+    pre: 0 <= case < 4
+    pre: 0 <= n1 < 3
+    pre: 0 <= n2 < 3
+    post: __return__ == 'ok'
+    """
+    codec, case = pick(codec, (0, 1)), pick(case, (0, 1, 2, 3))
+    n1, n2 = pick(n1, (0, 1, 300)), pick(n2, (0, 1, 300))
+    with untraced():
+        orc = Oracle()
+        try:
+            name = ('gzip', 'x-lz4')[codec]
+            if name not in CompressionHandler.available_encodings:
+                return 'ok'
+            a, b = b'<a>' + b'x' * n1 + b'</a>', b'<b>' + b'y' * n2 + b'</b>'
+            ca, cb = CompressionHandler.compress_payload(name, a), CompressionHandler.compress_payload(name, b)
+            data, want = {0: (ca + cb, a + b), 1: (ca + b'\x00garbage', None), 2: (ca + cb[:len(cb) // 2], None), 3: (ca, a)}[case]
+            try:
+                got = CompressionHandler.decompress_payload(name, data)
+            except Exception:  # noqa: BLE001
+                orc.check(want is None, 'valid_coded_body_rejected:' + name)
+                return orc.result()
+            if want is None:
+                orc.fail('corrupt_coded_body_accepted:' + name)
+            else:
+                orc.check(got == want, 'decoded_body_differs_from_original:' + name)
+        except Exception as ex:  # noqa: BLE001
+            return exc_result(orc, ex, 'codec')
         return orc.result()
